@@ -430,19 +430,39 @@ func c12Bandwidth(c *C12BW, r *core.Rec) {
 	}
 	// zero Bandwidth selects Scott's rule: state {unset} --first call--> {set}
 	for kern := 0; kern < 2; kern++ {
-		for first := 0; first < 3; first++ {
+		for first := 0; first < 9; first++ {
 			lazy := &stats.KDE{Sample: s, Kernel: stats.KDEKernel(kern)}
 			expl := &stats.KDE{Sample: s, Kernel: stats.KDEKernel(kern), Bandwidth: g}
-			x := sorted[0] + 0.3*(sorted[len(sorted)-1]-sorted[0])
+			lo, hi := sorted[0], sorted[len(sorted)-1]
+			x := lo + 0.3*(hi-lo)
+			// the FIRST query (the one that fills the bandwidth in) inside the data, at its
+			// ends, just outside and far outside; its own value must be right as well
+			var got, want float64
 			switch first {
 			case 0:
-				lazy.PDF(x)
+				got, want = lazy.PDF(x), expl.PDF(x)
 			case 1:
-				lazy.CDF(x)
+				got, want = lazy.CDF(x), expl.CDF(x)
 			case 2:
 				lazy.Bounds()
+			case 3:
+				got, want = lazy.PDF(lo), expl.PDF(lo)
+			case 4:
+				got, want = lazy.CDF(hi), expl.CDF(hi)
+			case 5:
+				got, want = lazy.PDF(lo-0.4*g), expl.PDF(lo-0.4*g)
+			case 6:
+				got, want = lazy.CDF(hi+0.4*g), expl.CDF(hi+0.4*g)
+			case 7:
+				got, want = lazy.CDF(lo-0.4*g), expl.CDF(lo-0.4*g)
+			case 8:
+				got, want = lazy.PDF(hi+3*(hi-lo)+10*g), expl.PDF(hi+3*(hi-lo)+10*g)
 			}
 			r.Trans(1)
+			if !sameF(got, want) {
+				r.Fail("lazy-first-query", "KDE with Bandwidth 0, kernel %d: the first query (variant %d) returned %v, with the Scott bandwidth %v set explicitly it is %v", kern, first, got, g, want)
+				continue
+			}
 			if lazy.Bandwidth != g {
 				r.Fail("lazy-bandwidth", "after the first call (%d) Bandwidth=%v, BandwidthScott=%v", first, lazy.Bandwidth, g)
 				continue
